@@ -31,13 +31,13 @@ theorem Quiet.trans {a b c : World α} (h1 : Quiet a b) (h2 : Quiet b c) : Quiet
   ⟨h2.1.trans h1.1, h1.2.trans h2.2⟩
 
 theorem tick_sat (on : Bool) (e : Exc) (w : World α) :
-    (tick on e w).sat (fun _ w' => Quiet w w') (fun e' w' => e' = e ∧ Quiet w w') := by
+    (tick on e w).sat (fun _ w' => Quiet w w') (fun e' w' => (e' = e ∧ on = true) ∧ Quiet w w') := by
   unfold tick
   cases on
   · exact Quiet.refl w
   · match hf : w.faults with
     | [] => simp only [if_true]; exact Quiet.refl w
-    | 0 :: fs => simp only [if_true]; exact ⟨rfl, rfl, ⟨rfl, rfl, rfl, rfl, rfl, rfl, fun _ => rfl⟩⟩
+    | 0 :: fs => simp only [if_true]; exact ⟨⟨rfl, trivial⟩, rfl, ⟨rfl, rfl, rfl, rfl, rfl, rfl, fun _ => rfl⟩⟩
     | (n+1) :: fs => simp only [if_true]; exact ⟨rfl, ⟨rfl, rfl, rfl, rfl, rfl, rfl, fun _ => rfl⟩⟩
 
 /-! ### slot-level access after an update -/
@@ -100,6 +100,22 @@ def Src.loc : Src α → Option (Nat × Nat)
 def Src.moving (c : Cfg) : Src α → Bool
   | .moveOf _ _ => c.realMove
   | _ => false
+
+/-- the fault-point flag a construction from this source consults -/
+def Src.ticks (c : Cfg) : Src α → Bool
+  | .ext _ => c.tCopy
+  | .extMove _ => c.tMove
+  | .copyOf _ _ => c.tCopy
+  | .moveOf _ _ => c.tMove
+  | .value _ => c.tVctor
+
+/-- the fault-point flag an assignment from this source consults -/
+def Src.aticks (c : Cfg) : Src α → Bool
+  | .ext _ => c.tCasg
+  | .extMove _ => c.tMasg
+  | .copyOf _ _ => c.tCasg
+  | .moveOf _ _ => c.tMasg
+  | .value _ => c.tCasg
 
 /-- the value a source provides, read in world `w` -/
 def srcVal (w : World α) : Src α → Val α
@@ -203,7 +219,7 @@ private theorem wrote_from_slot (c : Cfg) (w w1 : World α) (blk idx b0 i0 : Nat
 /-- constructing into a raw slot from a live source: exact effect, or nothing happened (throw) -/
 theorem constructSrc_sat (c : Cfg) (blk idx : Nat) (s : Src α) (w : World α)
     (hraw : (w.mem blk)[idx]? = some .raw) (hsrc : SrcLive w s) :
-    (constructSrc c blk idx s w).sat (fun _ w' => WroteFrom c w w' blk idx s) (fun e w' => e = .elem ∧ Quiet w w') := by
+    (constructSrc c blk idx s w).sat (fun _ w' => WroteFrom c w w' blk idx s) (fun e w' => (e = .elem ∧ s.ticks c = true) ∧ Quiet w w') := by
   have hlt := lt_of_get hraw
   cases s with
   | ext a =>
@@ -266,7 +282,7 @@ theorem constructSrc_sat (c : Cfg) (blk idx : Nat) (s : Src α) (w : World α)
 /-- assigning to a live slot from a live source (not the slot itself): exact effect, or nothing happened (throw) -/
 theorem assignSrc_sat (c : Cfg) (blk idx : Nat) (s : Src α) (w : World α) (u : Val α)
     (hraw : (w.mem blk)[idx]? = some (.obj u)) (hsrc : SrcLive w s) (hself : s.loc ≠ some (blk, idx)) :
-    (assignSrc c blk idx s w).sat (fun _ w' => WroteFrom c w w' blk idx s) (fun e w' => e = .elem ∧ Quiet w w') := by
+    (assignSrc c blk idx s w).sat (fun _ w' => WroteFrom c w w' blk idx s) (fun e w' => (e = .elem ∧ s.aticks c = true) ∧ Quiet w w') := by
   have hlt := lt_of_get hraw
   cases s with
   | ext a =>
